@@ -126,18 +126,22 @@ ApplyRes1D(e) ==
              \o RowClause(n, LAMBDA i : ~FVecAllFinite(e.rows[i]) \/
                                         \A k \in full : FNear(e.probes[k].out[i], FDot(e.rows[i], seg(k, i)), DotTol, "1e-300"),
                           "apply-is-weighted-average", LAMBDA i : ""))
-       \o RowClause(n, LAMBDA i : \A k \in full : FIsFinite(e.probes[k].out[i]), "apply-finite", LAMBDA i : "")
-       \o RowClause(n, LAMBDA i : \A k \in full : (e.probes[k].name = "const" /\ FIsFinite(e.probes[k].out[i])) =>
-                                       FNear(e.probes[k].out[i], e.probes[k].theory[1], tol(i), Zero),
-                    "constant-preserved", LAMBDA i : <<"q", e.q[i], [k \in full |-> e.probes[k].out[i]]>>)
-       \o RowClause(n, LAMBDA i : \A k \in full : FIsFinite(e.probes[k].out[i]) =>
-                                      /\ FLeq(FSub(tmin[k], FMul("1e-12", tmax[k])), e.probes[k].out[i])
-                                      /\ FLeq(e.probes[k].out[i], FMul(tmax[k], "1.000000000001")),
-                    "average-within-range", LAMBDA i : "")
+       \o (IF e.haverows THEN <<>> ELSE
+             \* large objects (matrix not logged): the same facts through apply() of probe vectors
+             RowClause(n, LAMBDA i : \A k \in full : FIsFinite(e.probes[k].out[i]), "weights-finite", LAMBDA i : "apply() is not finite")
+             \o RowClause(n, LAMBDA i : \A k \in full : (e.probes[k].name = "const" /\ FIsFinite(e.probes[k].out[i])) =>
+                                             FNear(e.probes[k].out[i], e.probes[k].theory[1], tol(i), Zero),
+                          "rows-sum-to-one", LAMBDA i : <<"apply(const)", "q", e.q[i], [k \in full |-> e.probes[k].out[i]]>>)
+             \o RowClause(n, LAMBDA i : \A k \in full : FIsFinite(e.probes[k].out[i]) =>
+                                            /\ FLeq(FMul(tmin[k], FSub(One, tol(i))), FAdd(e.probes[k].out[i], "1e-300"))
+                                            /\ FLeq(e.probes[k].out[i], FMul(tmax[k], FAdd(One, tol(i)))),
+                          "average-within-range", LAMBDA i : ""))
        \o (IF basis = {} THEN <<>> ELSE
              Bad(\A k \in basis : FVecAllGeq(e.probes[k].out, Zero), "weights-nonnegative", "column of W from apply(unit vector)"))
-       \o RowClause(n, LAMBDA i : zero(i) => (IndexOf(qc, e.q[i]) # 0 /\
-                                              \A k \in full : FBits(e.probes[k].out[i], e.probes[k].theory[IndexOf(qc, e.q[i])])),
+       \* (|q_calc| may hold the data point twice - once from the negative branch of a wide
+       \* neighbour's window - and the probe theories are indexed by position, so: some occurrence)
+       \o RowClause(n, LAMBDA i : zero(i) => \E j \in RIndicesOf(qc, e.q[i]) :
+                                              \A k \in full : FBits(e.probes[k].out[i], e.probes[k].theory[j]),
                     "zero-width-identity", LAMBDA i : <<"q", e.q[i]>>)
 
 ----------------------------------------------------------------------------
@@ -219,7 +223,7 @@ ApplyDirect(e) ==
            THEN Bad(FVecBits(e.base, e.unsmeared), "zero-width-identity", ToString(<<"resolution class", cls>>))
            ELSE IF two THEN <<>>
            ELSE RowClause(n, LAMBDA i : (FEq(sigma[i], Zero) /\ FEq(L[i], Zero) /\ FEq(W[i], Zero)) =>
-                                  (IndexOf(e.qcalc, e.q[i]) # 0 /\ FBits(e.base[i], e.unsmeared[IndexOf(e.qcalc, e.q[i])])),
+                                  \E j \in RIndicesOf(e.qcalc, e.q[i]) : FBits(e.base[i], e.unsmeared[j]),
                           "zero-width-identity", LAMBDA i : <<"q", e.q[i]>>))
        \o (IF flat /\ Len(e.base) = n
            THEN RowClause(n, LAMBDA i : FNear(e.base[i], e.unsmeared[1], tol(i), Zero), "flat-unchanged",
